@@ -950,6 +950,29 @@ def _known_init_param_names(case, fail: Fail) -> bool:
     return True
 
 
+def _known_init_forwarded_annotation(case, fail: Fail) -> bool:
+    """`class A: x: T` followed by `self.x = ...` in `__init__`: the visitor forwards the class-level annotation (built in
+    the scope of the class) to the attribute assigned in `__init__`; the decoder resolves every expression of an attribute
+    that lies within the lines of `__init__` in the scope of that method. Only annotations of attributes, and only names
+    that resolve in one of the `__init__`-scope forms *after* the round trip."""
+    import re
+
+    diffs = _name_diffs(fail)
+    if not diffs:
+        return False
+    for where, pairs in diffs:
+        if "parameters" in where or "annotation" not in where or not pairs:
+            return False
+        for x, y in pairs:
+            name, _, before = x.partition("->")
+            if re.fullmatch(r"(\w+)->[\w.]+\(\1\)", y) or re.fullmatch(r"(\w+)->[\w.]+\.__init__\.\1", y):
+                continue
+            if y.startswith(name + "->") and x == f"{y}.{name}":
+                continue
+            return False
+    return True
+
+
 def _known_dataclass_inherited_fields(case, fail: Fail) -> bool:
     """The `__init__` synthesised for a dataclass re-uses the field expressions of its parent dataclasses: their names
     live in the scope of the parent class; after reload every parameter expression is attached to the subclass. Only
@@ -973,11 +996,13 @@ STEERING: dict = {
     "parsed-sections": "full-form identity is compared modulo docstring.parsed when a docstring parser is selected",
     "init-param-names": "`__init__` parameters, objects defined in `__init__` bodies and nested classes named like their enclosing class are renamed so that no expression of an instance attribute resolves differently from the function scope",
     "dataclass-inherited-fields": "classes decorated with dataclasses.dataclass are rendered without bases",
+    "init-forwarded-annotation": "attributes assigned in `__init__` get names (`x_i`) that no class-level attribute has, so no annotation is forwarded to them",
 }
 KNOWN: dict = {
     "parsed-sections": _known_parsed_sections,
     "init-param-names": _known_init_param_names,
     "dataclass-inherited-fields": _known_dataclass_inherited_fields,
+    "init-forwarded-annotation": _known_init_forwarded_annotation,
 }
 
 
@@ -988,6 +1013,8 @@ def _steered(slug: str, case) -> bool:
     if slug == "dataclass-inherited-fields":
         text = json.dumps(case)
         return '"dc": true' in text or '["known", 2]' in text
+    if slug == "init-forwarded-annotation":
+        return '"selfattrs": [[' in json.dumps(case)
     if slug == "init-param-names":
 
         def walk(stmts, enclosing=None):
